@@ -574,6 +574,8 @@ def shrink(ctx: Ctx, v: Violation) -> Violation:
     t0 = time.time()
     key = v.key()
     best = v
+    import os
+    limit = float(os.environ.get("VERIF_C10_SHRINK_S", "50"))
 
     def still(case: Dict[str, Any]) -> Optional[Violation]:
         try:
@@ -587,7 +589,7 @@ def shrink(ctx: Ctx, v: Violation) -> Violation:
     case = copy.deepcopy(v.case)
     if case.get("kind") == "history":
         changed = True
-        while changed and time.time() - t0 < 50:
+        while changed and time.time() - t0 < limit:
             changed = False
             for i in range(len(case["calls"]) - 1, -1, -1):
                 trial = copy.deepcopy(case)
@@ -600,7 +602,7 @@ def shrink(ctx: Ctx, v: Violation) -> Violation:
                     break
         return best
     changed = True
-    while changed and time.time() - t0 < 50:
+    while changed and time.time() - t0 < limit:
         changed = False
         refs = _referenced(case)
         for i in range(len(case["lines"]) - 1, -1, -1):
@@ -617,7 +619,7 @@ def shrink(ctx: Ctx, v: Violation) -> Violation:
                 break
     # drop decorations
     for i in range(len(case["lines"])):
-        if time.time() - t0 > 58:
+        if time.time() - t0 > limit + 8:
             break
         trial = copy.deepcopy(case)
         l2 = trial["lines"][i]
